@@ -388,8 +388,10 @@ where
                             // a) if the threadtime was < 1.1. 12:00:00 (so assuming 1.1.70, not true at start of each year!)
                             //    we do use as monotonic timestamp the time since 1.1.1970
                             // b) otherwise we do use for the first message 10_000s and use the distance from first message to cur message as timestamp
+                            // (a date later in the year than the ref date is taken as from the prev. year: not a monotonic timestamp)
                             let (timestamp_us, reception_time_us) = if threadtime
                                 < self.max_threadtime_treat_as_timestamp
+                                && threadtime >= self.max_threadtime_treat_as_timestamp_start
                             {
                                 // case a
                                 // as reception time we use the recorded_start_time_us +timestamp
